@@ -55,6 +55,34 @@ CLAIMED["C03"] = ("property-based testing: Hypothesis-generated coroutine/proces
                   "Trusts the reference model in harness/m_coro.c and the probe harness/coro_probe.asm; register contents "
                   "are sampled, x87 control word and rflags are outside the statement.", "DESIGN.md par. 3 C03")
 
+CLAIMED["C17"] = ("property-based testing: Hypothesis-generated sample/weight sequences, splits and merge orders run through the "
+                  "real summary API; oracle = exact Fraction statistics with condition-number-aware tolerances, merge == "
+                  "concatenation, weight-scale metamorphic relation",
+                  "Search, not proof: generated sequences (0-300 samples, offsets, extreme magnitudes, every split/merge order "
+                  "and target, empties, weight patterns) compared with exactly computed statistics; held on everything explored.",
+                  "Trusts pbt/props/stats_lib.py (exact reference, stated tolerances), harness/m_stats.c, Hypothesis; "
+                  "ill-conditioned statistics are excluded and counted, not passed.", "DESIGN.md par. 3 C17")
+CLAIMED["C18"] = ("property-based testing: Hypothesis-generated datasets / time series (sizes across the 1024/2048 doublings, "
+                  "duplicates, dominating durations, bin counts and ranges, lags) through the real API; oracle = multiset "
+                  "comparison, weighted-median inequality, five-number ordering, reference binning, ACF/PACF invariance",
+                  "Search, not proof: validity predicates of the property evaluated on generated inputs incl. boundary sweeps "
+                  "(fixed cases); held on everything explored.",
+                  "Trusts pbt/props/stats_lib.py, harness/m_stats.c, Hypothesis; the documented nearly-constant guard of the "
+                  "correlogram is excluded and counted.", "DESIGN.md par. 3 C18")
+CLAIMED["C19"] = ("property-based testing + stress: Hypothesis-generated experiments (trial counts around the core count, struct "
+                  "sizes, duration mixes, trial kinds incl. full simulations and per-trial functions) run through "
+                  "cimba_run_experiment on the asan and rel builds; oracle = per-trial counters, guard words, and bit-identical "
+                  "digests vs a sequential single-thread run and vs a same-thread run after other trials",
+                  "Search, not proof: schedules are provoked (duration mixes, naps, contention), not controlled; a suspected race "
+                  "is replayed up to 20x and otherwise reported as the recorded observation; held on everything explored.",
+                  "Trusts harness/m_experiment.c and the digest comparison; thread interleavings are not enumerated.",
+                  "DESIGN.md par. 3 C19")
+CLAIMED["C20"] = ("property-based testing (Hypothesis alloc/free histories on dynamic and static thread-local pools) against an "
+                  "in-executor interval/pattern oracle under ASan; libFuzzer structure-aware front end in the thorough tier",
+                  "Search, not proof: histories whose live population crosses chunk boundaries and the 64-chunk list growth; "
+                  "alignment, disjointness, content stability and no double hand-out checked after every op; held on everything explored.",
+                  "Trusts the oracle in harness/m_mempool.c, ASan, Hypothesis.", "DESIGN.md par. 3 C20")
+
 NOT_YET = "check not built yet in this session (work in progress; see DESIGN.md §3 for the planned check)"
 
 
